@@ -411,4 +411,63 @@ def keyStep (v : Validator) (s : St) (k : Key) : St × Out :=
   let (s1, o) := step v s (keyOp k)
   (asyncValidate v s1, o)
 
+/-! ### thin glue of the vi key bindings -/
+
+/-- `Document.is_cursor_at_the_end_of_line`: the character under the cursor is `"\n"` or missing -/
+def atEndOfLine (t : Text) (cur : Nat) : Bool :=
+  match t[cur]? with
+  | none => true
+  | some c => c == '\n'
+
+/-- `KeyProcessor._fix_vi_cursor_position` in navigation mode: never rest after the last
+    character of a non-empty line (the preferred column is put back afterwards) -/
+def viFix (s : St) : St :=
+  if atEndOfLine s.text s.cur && decide ((lineBefore s.text s.cur ++ lineAfter s.text s.cur).length > 0) then
+    { setCursorPos s ((s.cur : Int) - 1) with pref := s.pref }
+  else s
+
+/-- a PromptSession in vi mode: the buffer plus `vi_state.input_mode == NAVIGATION` -/
+structure ViSt where
+  st : St
+  nav : Bool
+deriving Repr, DecidableEq
+
+inductive ViKey
+  | char (c : Char)      -- insert mode: self-insert
+  | backspace            -- insert mode: backward-delete-char
+  | escape               -- to navigation mode (from insert mode the cursor steps left)
+  | insertI              -- navigation mode `i`
+  | appendA              -- navigation mode `a`
+  | k (arg : Int)        -- navigation mode `k`: auto_up(count, go_to_start_of_line_if_history_changes=True)
+  | j (arg : Int)        -- navigation mode `j`
+  | up (arg : Int)       -- <up> (both modes): auto_up(count)
+  | down (arg : Int)     -- <down>
+  | gotoG (n : Nat)      -- navigation mode `<n>G`: go_to_history(n - 1), n ≥ 1
+  | enter                -- accept-line
+deriving Repr
+
+/-- the handler of one vi key: new buffer state, new mode, result -/
+def viHandler (v : Validator) (vs : ViSt) : ViKey → St × Bool × Out
+  | .char c => (insertText vs.st [c], vs.nav, .none)
+  | .backspace => (deleteBefore vs.st 1, vs.nav, .none)
+  | .escape => (if vs.nav then vs.st else cursorLeft vs.st, true, .none)
+  | .insertI => (vs.st, false, .none)
+  | .appendA => (cursorRight vs.st, false, .none)
+  | .k a => let (s, o) := step v vs.st (.autoUp a true); (s, vs.nav, o)
+  | .j a => let (s, o) := step v vs.st (.autoDown a true); (s, vs.nav, o)
+  | .up a => let (s, o) := step v vs.st (.autoUp a false); (s, vs.nav, o)
+  | .down a => let (s, o) := step v vs.st (.autoDown a false); (s, vs.nav, o)
+  | .gotoG n => (goToHistory vs.st (n - 1), vs.nav, .none)
+  | .enter => let (s, o) := step v vs.st (.accept true); (s, vs.nav, o)
+
+/-- one vi key press: handler, cursor fix when in navigation mode afterwards, then one turn of
+    the event loop -/
+def viKeyStep (v : Validator) (vs : ViSt) (k : ViKey) : ViSt × Out :=
+  let (s1, nav1, o) := viHandler v vs k
+  let s2 := if nav1 then viFix s1 else s1
+  ({ st := asyncValidate v s2, nav := nav1 }, o)
+
+/-- `prompt()` in vi mode: `vi_state.reset()` puts the session back into insert mode -/
+def viPromptStart (vs : ViSt) (d : Text) : ViSt := { st := promptStart vs.st d, nav := false }
+
 end Ptk.C14
